@@ -1,5 +1,5 @@
 """C06 - view consistency: thread/CPU timelines show a value exactly when state allows."""
-from vf import common, emucheck, emucore, gen_hist
+from vf import baycheck, common, emucheck, emucore, gen_hist
 
 LEVEL = "proof"
 
@@ -29,3 +29,35 @@ def run(chk):
                             "flush, kernel in/out of CPU, wrong pops, unknown codes); judged on the real PRVs by cross-consistency of thread.prv and cpu.prv "
                             "with the thread machine and the dumped tracking modes; compared row by row with the extracted Coq model")
     emucheck.finish_corr(chk, corr)
+    check_bay_layer(chk, build)
+
+
+def check_bay_layer(chk, build):
+    """In-process tie of the mechanical layer (coq/Emu/BayDefs.v: chan.c, bay.c, mux.c, track.c, the select functions of
+    thread.c and prv.c's emit) that C06_mux_refines_emission_rule / C06_bay_refines_emission_rule are about."""
+    chk.trusted_base.append(
+        "hand model coq/Emu/BayDefs.v (channels, bay callback lists and dirty list, three-phase bay_propagate, mux callbacks, "
+        "tracking wiring), compared in process with the real chan.c/bay.c/mux.c/track.c/prv.c through harness/bay_h.c on every run; "
+        "harness/bay_h.c replays the connect loops of thread.c/cpu.c/model_thread.c/model_cpu.c/model_pvt.c call by call")
+    try:
+        bad = baycheck.check_bay(chk, build, chk.budget(3000, 60000))
+    except Exception as e:                      # harness or extraction does not build: the tie is broken, not the property
+        chk.notes.append("bay harness unavailable: %r" % (e,))
+        chk.violation("broken-correspondence:bay", "the bay-layer harness or oracle could not be built or run: %s" % (repr(e)[:300],),
+                      {"correspondence": "coq/Emu/BayDefs.v vs chan.c/bay.c/mux.c/track.c/prv.c", "error": repr(e)[:600]}, found_input=False)
+        return
+    chk.coverage["bay_rule"] = ("random wirings of the real shape (1-4 threads, 1-3 CPUs, 1-4 model channels: stack/single, ALLOW_DUP, tracking "
+                                "ANY/RUN/ACT, PRV flags, connect-time values, CPU mux defaults) built with the real track_*/mux_*/bay_*/prv_register "
+                                "calls in the emulator's order; 3-14 batches of channel writes per script, each followed by bay_propagate: select and "
+                                "selected input written in the same batch in both orders, select to/from a state that selects nothing, writes to "
+                                "unselected inputs, refused duplicates and double writes, IGNORE_DUP channels, several CPU muxes selecting one thread, "
+                                "a CPU switching to a thread whose input is dirty too, out-of-range select values; after every propagate all channel "
+                                "values / last_value / dirty flags / stack depths, every mux's selected and enabled input callbacks and the PRV lines "
+                                "in emission order are compared with the extracted Coq model")
+    if bad:
+        chk.coverage["bay_disagreements"] = bad[:5]
+        chk.violation("broken-correspondence:bay",
+                      "the extracted bay model and the real chan.c/bay.c/mux.c/track.c/prv.c disagree on %d of the generated scripts; "
+                      "first: segment %s of script %r: real %r, model %r"
+                      % (len(bad), bad[0]["first_differing_segment"], bad[0]["script"][:300], (bad[0]["impl"] or "")[:300], (bad[0]["model"] or "")[:300]),
+                      {"correspondence": "coq/Emu/BayDefs.v vs chan.c/bay.c/mux.c/track.c/prv.c", "disagreements": bad[:10]}, found_input=False)
